@@ -42,6 +42,7 @@ type pluginCase struct {
 	Args    []string          `json:"args,omitempty"`   // extra CLI args
 	OutDir  string            `json:"outdir,omitempty"` // relative output dir (default "out")
 	Direct  map[string]string `json:"direct,omitempty"` // mode "direct": files answered by an in-process ServiceGenerator
+	NoPlugin bool             `json:"noplugin,omitempty"` // mode "direct": gen.Generate called without any plugin (library use)
 	Pre     [][]string        `json:"pre,omitempty"`    // cli mode: earlier runs (extra args each, no plugins) whose output is already in place
 }
 
@@ -355,8 +356,11 @@ func runDirect(c pluginCase, o wj.J) {
 		o["setup"] = err.Error()
 		return
 	}
-	genErr = gen.Generate(module, &gen.Options{OutputDir: outDir, PackagePrefix: "example.com/gen", ThriftRoot: filepath.Join(work, "idl"),
-		NoVersionCheck: true, Plugin: gen.CodeGenerator{ServiceGenerator: directGen{files}}})
+	opts := &gen.Options{OutputDir: outDir, PackagePrefix: "example.com/gen", ThriftRoot: filepath.Join(work, "idl"), NoVersionCheck: true}
+	if !c.NoPlugin {
+		opts.Plugin = gen.CodeGenerator{ServiceGenerator: directGen{files}}
+	}
+	genErr = gen.Generate(module, opts)
 	after := listTree(work)
 	var created, modified, deleted []string
 	for p, h := range after {
